@@ -243,7 +243,7 @@ class _Pinned(dt.datetime):
         return T0 + D(days=60)
 
 
-def ceremony_release(prev_name, new_name, ps, rs, existing):
+def ceremony_release(prev_name, new_name, ps, rs, existing, configured_prev=None):
     base_pol = ksrxml.default_zsk_policy(publish_safety=D(days=10), retire_safety=D(days=10))
     last = simulated(prev_name, "prev", T0, base_pol)
     zs = [[ZSKS[0], ZSKS[1]]] + [[ZSKS[1]]] * 7 + [[ZSKS[1], ZSKS[2]]]
@@ -261,12 +261,19 @@ def ceremony_release(prev_name, new_name, ps, rs, existing):
         open(paths["prev"], "w").write(ksrxml.render_skr(last))
         if existing is not None:
             open(paths["out"], "wb").write(existing)
+        fnames = None
+        if configured_prev is not None:
+            # the configuration names another previous SKR; the one given on the command line is the one the operator supplies for this ceremony
+            paths["cfgprev"] = os.path.join(d, "configured-prev.xml")
+            open(paths["cfgprev"], "w").write(ksrxml.render_skr(simulated(configured_prev, "prev", T0, base_pol)))
+            fnames = {"previous_skr": paths["cfgprev"]}
         cfg = ceremony.make_config({n: ceremony.ksk_def(k) for n, k in KSKS.items()}, {"s": {i: {k: v for k, v in a.items() if v} for i, a in ALL[new_name].items()}},
                                    request_policy={"num_bundles": 9, "rsa_approved_key_sizes": [1024], "num_keys_per_bundle": [len(x) for x in zs],
                                                    "num_different_keys_in_all_bundles": len({k["pub"] for x in zs for k in x}), "check_cycle_length": False, "signature_horizon_days": 400},
                                    response_policy={"num_bundles": 9},
                                    ksk_policy={"publish_safety": ksrxml.fmt_dur(ps), "retire_safety": ksrxml.fmt_dur(rs), "max_signature_validity": "P21D",
-                                               "min_signature_validity": "P21D", "max_validity_overlap": "P16D", "min_validity_overlap": "P9D", "ttl": 172800})
+                                               "min_signature_validity": "P21D", "max_validity_overlap": "P16D", "min_validity_overlap": "P9D", "ttl": 172800},
+                                   filenames=fnames)
         emu.install(ceremony.token_with(list(KSKS.values())))
         vpol.datetime = _Pinned
         try:
@@ -306,6 +313,28 @@ for (a, b, ps, rs) in (CER if TIER == "quick" else CER + [(a, b, D(days=10), D(d
         if what:
             rep.violation("impl-vs-spec", f"ceremony {a} -> {b}, publish_safety={ps}, retire_safety={rs}: {what}",
                           {"kind": "ceremony-release", "prev_schema": a, "new_schema": b, "publish_safety": str(ps), "retire_safety": str(rs), "output_existed": existing is not None})
+
+# the previous SKR of a ceremony is the one named on the command line, whatever the configuration file also names
+_pol0 = RequestPolicy()
+_trip = []
+for a in SCHEMAS:
+    for dcy in SCHEMAS:
+        for b in SCHEMAS:
+            if a == dcy or len(_trip) >= (3 if TIER == "quick" else 12):
+                continue
+            la, ld = simulated(a, "prev", T0, ksrxml.default_zsk_policy(publish_safety=D(days=10), retire_safety=D(days=10))), simulated(dcy, "prev", T0, ksrxml.default_zsk_policy(publish_safety=D(days=10), retire_safety=D(days=10)))
+            nb_ = simulated(b, "new", T0 + D(days=90), ksrxml.default_zsk_policy(publish_safety=D(days=10), retire_safety=D(days=10)))
+            if spec(_pol0, la, nb_) != spec(_pol0, ld, nb_) and {k["pub"] for k in la["bundles"][-1]["keys"] if k["flags"] == 256} == {k["pub"] for k in ld["bundles"][-1]["keys"] if k["flags"] == 256}:
+                _trip.append((a, dcy, b))
+for (a, dcy, b) in _trip:
+    r, after, want = ceremony_release(a, b, D(days=10), D(days=10), None, configured_prev=dcy)
+    hist["ceremony-two-previous-skrs"] = hist.get("ceremony-two-previous-skrs", 0) + 1
+    released = after is not None
+    if released != want:
+        rep.violation("impl-vs-spec", f"ceremony with --previous_skr = SKR({a}) while the configuration names SKR({dcy}), new schema {b}: "
+                      + ("a new SKR was released although the safety rules refuse it against the previous SKR the operator supplied" if released else
+                         f"no SKR was released ({r[2] if r[0] != 'ok' else r[1]}) although the safety rules allow it against the previous SKR the operator supplied"),
+                      {"kind": "ceremony-two-previous-skrs", "command_line_previous": a, "configured_previous": dcy, "new_schema": b})
 
 ok_build, log = vlib.make(["Checks/C08Check.vo"])
 runner = vlib.CaseRun("C09", "main", "From KV Require Import Base.Prelude Base.Exn Model.Data Model.KsrPolicy Model.Chain Checks.C08Check.", "case9", "check9", shard=60)
